@@ -3,13 +3,13 @@
    enumerates the domain through the variable `act`: one initial state, one step per case. *)
 EXTENDS Topics
 
-CONSTANTS Domain      \* "quick" | "thorough"
+CONSTANTS Domain      \* "quick" | "thorough" | "attack" (keys only, small: used with a weakened spec)
 
 VARIABLE act
 
 EdgeBytes == IF Domain = "thorough" THEN {0, 1, 127, 128, 254, 255} ELSE {0, 127, 128, 255}
-Fillers   == IF Domain = "thorough" THEN {0, 165, 255} ELSE {0, 255}
-KeyLens   == {0, 1, 2, 3, 4, 5, KeySize - 1, KeySize}
+Fillers   == IF Domain = "thorough" THEN {0, 165, 255} ELSE IF Domain = "attack" THEN {0} ELSE {0, 255}
+KeyLens   == IF Domain = "attack" THEN {0, 4, 5, KeySize} ELSE {0, 1, 2, 3, 4, 5, KeySize - 1, KeySize}
 NLead     == HexDigits \div 2          \* the bytes of the key the mapping reads
 
 KeyOf(p, n, f) == [k \in 1..n |-> IF k <= Len(p) THEN p[k] ELSE f]
@@ -36,11 +36,13 @@ Vecs == {Vec(LAMBDA i : FALSE), Vec(LAMBDA i : TRUE),
 HexStrs == {"", "0", "123456789", "0000000000", "ffffffffff", "FFFFFFFFFF", "00000000zz", "0x00000001",
             "8000000000", "000000007f", "0000000080", "00000000ff00", "abcdefABCD"}
 
-Cases == {[name |-> "key", pk |-> k] : k \in Keys}
-         \cup {[name |-> "env", msg |-> m, idLE |-> i, sig |-> s] : m \in Msgs, i \in Ids, s \in Sigs}
-         \cup {[name |-> "num", n |-> n, k |-> k] : n \in Nums, k \in 1..3}
-         \cup {[name |-> "vec", v |-> v] : v \in Vecs}
-         \cup {[name |-> "hexstr", s |-> s] : s \in HexStrs}
+KeyCases == {[name |-> "key", pk |-> k] : k \in Keys}
+Cases == IF Domain = "attack" THEN KeyCases
+         ELSE KeyCases
+              \cup {[name |-> "env", msg |-> m, idLE |-> i, sig |-> s] : m \in Msgs, i \in Ids, s \in Sigs}
+              \cup {[name |-> "num", n |-> n, k |-> k] : n \in Nums, k \in 1..3}
+              \cup {[name |-> "vec", v |-> v] : v \in Vecs}
+              \cup {[name |-> "hexstr", s |-> s] : s \in HexStrs}
 
 Init == act = [name |-> "init"]
 Next == act.name = "init" /\ \E c \in Cases : act' = c
